@@ -21,6 +21,9 @@ type c14Case struct {
 	WithClk  bool  `json:"with_clock"`
 	Ponder   bool  `json:"ponder"`    // go ponder ... then ponderhit
 	HitAfter int64 `json:"hit_after"` // simulated us between go ponder and ponderhit
+	// PonderOff: the GUI says `go ponder` although the Ponder option is off; the
+	// engine then searches normally and the deadline counts from the go.
+	PonderOff bool `json:"ponder_off,omitempty"`
 	// Noise: offsets (simulated us after the go, or after the ponderhit) at
 	// which the GUI sends an isready while the search is still running.
 	Noise []int64 `json:"noise,omitempty"`
@@ -137,6 +140,10 @@ func genC14Cases(rng *rand.Rand, n int, boundary []int64) []c14Case {
 		if rng.IntN(5) == 0 {
 			base.Ponder = true
 			base.HitAfter = pick(rng, []int64{0, 1, 1000, 500_000, 20_000_000, logUniform(rng, 1, 1e10)})
+			if rng.IntN(4) == 0 {
+				base.PonderOff = true
+				base.HitAfter = 1 + rng.Int64N(max(base.Own, base.MoveTime)*1000/2+1)
+			}
 		}
 		if rng.IntN(3) == 0 {
 			// isready arriving while the search runs must not move the deadline
@@ -192,6 +199,9 @@ func buildC14Scenario(cases []c14Case, real bool) *C14Scenario {
 			fen = c.FEN
 		}
 		sc.Stubs = append(sc.Stubs, StubGo{Move: "0000"})
+		if c.PonderOff {
+			add(UStep{Op: "in", Data: "setoption name Ponder value false\n"})
+		}
 		add(UStep{Op: "in", Data: "position fen " + fen + "\n"})
 		add(UStep{Op: "in", Data: c.goLine() + "\n"})
 		if real && c.RunPolls > 0 {
@@ -224,6 +234,9 @@ func buildC14Scenario(cases []c14Case, real bool) *C14Scenario {
 		add(UStep{Op: "tick", DUS: total - at})
 		add(UStep{Op: "in", Data: "stop\n"}) // harmless if the deadline already ended the search
 		add(UStep{Op: "drain"})
+		if c.PonderOff {
+			add(UStep{Op: "in", Data: "setoption name Ponder value true\n"})
+		}
 	}
 	add(UStep{Op: "in", Data: "quit\n"})
 	return &C14Scenario{UCI: sc, Cases: cases}
@@ -302,7 +315,7 @@ func monitorC14(cs *C14Scenario, out *UCIOutcome, windows []*goWindow) (vs []Vio
 			continue
 		}
 		ref := w.goT
-		if c.Ponder {
+		if c.Ponder && !c.PonderOff {
 			ref = w.hitT
 			if ref < 0 {
 				add("HARNESS", "ponderhit not recorded", w.goSeq)
@@ -336,7 +349,7 @@ func monitorC14(cs *C14Scenario, out *UCIOutcome, windows []*goWindow) (vs []Vio
 		if c.Own > margin && o.HUS > (c.Own-margin)*1000 {
 			add("margin", fmt.Sprintf("%s: hard deadline after %d us does not keep the %d ms margin of the remaining %d ms", desc, o.HUS, margin, c.Own), w.goSeq)
 		}
-		k := key{c.Own, c.OwnInc, c.MoveTime, c.HasInc, c.WithClk, c.Ponder}
+		k := key{c.Own, c.OwnInc, c.MoveTime, c.HasInc, c.WithClk, c.Ponder && !c.PonderOff}
 		if prev, ok := seen[k]; ok {
 			if prev.HUS != o.HUS || prev.SoftTime != o.SoftTime {
 				add("not-own-clock", fmt.Sprintf("%s: deadline %d us / soft %d ms, but the same own clock gave %d us / %d ms with side=%v opp=%d oppinc=%d (now side=%v opp=%d oppinc=%d)",
